@@ -25,6 +25,9 @@ import (
 type tcase struct {
 	ID   int        `json:"id"`
 	Acts []envh.Act `json:"acts"`
+	// the key relation (keys.go): the presentations made to one process of the path, in this order
+	Seq  []pres `json:"seq,omitempty"`
+	Path string `json:"path,omitempty"`
 }
 
 var keySets = [][]int{{1}, {2}, {}, {2, 1}}
@@ -526,7 +529,9 @@ func Run(c *core.Ctx) int {
 	c.Count("relabelled-copies-of-key-1", int64(len(r.relabeled)))
 	var hs []*histObs
 	var rc tcase
+	replaying := false
 	if c.ReplayCase(&rc) {
+		replaying = true
 		hs = append(hs, r.run(rc, baseOf(rc), nil))
 	} else {
 		n := c.Pick(350, 12000)
@@ -551,6 +556,9 @@ func Run(c *core.Ctx) int {
 	if ext.note != "" {
 		c.Note("%s", ext.note)
 	}
+
+	// ---- key material x key id x path x order of arrival
+	r.keyRelation(ext, hs, replaying)
 
 	// ---- model and specification
 	var reqs []string
